@@ -33,6 +33,28 @@ PROPS = {
     },
 }
 
+PROPS['C15'] = {
+    'harness': 'hist', 'level': 'exploration',
+    'runs': {'quick': 1200, 'thorough': 40000},
+    'cpu_s': 300, 'wall_s': 900,
+    'rule': ('one run = one seeded history of 6-40 steps (auto / explicit / '
+             'wrong-format / failing / multi-file / repeated opens, reader '
+             'registrations, collections) over a pool of 3-20 files of every '
+             'self-describing format under conventional, absent and misleading '
+             'suffixes; after every step a seeded subset of the pool is probed '
+             'and compared with a pristine forked interpreter that replays only '
+             'the registrations. distinct = distinct abstracted trace of (op, '
+             'how, content kind, name variant); non-trivial = at least one '
+             'history open precedes a probe'),
+    'components': {'real': REAL + ['every registered reader\'s isMine and constructor'],
+                   'stub': ['producers of pool files (reference encoders, netCDF4)',
+                            'memory-less peer: pristine process forked before any open']},
+    'assumptions': [
+        'the path is part of "the file": the same bytes under another suffix may select another reader; the reference reproduces that',
+        'second clause asserted for content-identified formats (gridded, boundary, ICARTT, netCDF-3/4, IOAPI netCDF) under conventional or absent suffix',
+        'sampling, not proof'],
+}
+
 MANIFEST_TEXT = {
     'C05': {
         'text': ('Seeded search over schedules: thousands of simulated runs, '
@@ -56,6 +78,25 @@ MANIFEST_TEXT = {
     },
 }
 
+MANIFEST_TEXT['C15'] = {
+    'text': ('Refinement against a memory-less reference under seeded '
+             'histories: after every step of a random history of opens '
+             '(auto, explicit, wrong-format, failing, multi-file, repeated up '
+             'to 50x), reader registrations and collections, pool files are '
+             'probed and reader class, presented class and content digest are '
+             'compared with the answer of a pristine process forked before any '
+             'open that replays only the registrations; plus auto == explicit '
+             'for content-identified formats. The property quantifies over '
+             'histories of process-global registry state, which is exactly '
+             'what the simulator varies. Evidence, not proof.'),
+    'design_ref': 'DESIGN.md section 4 (C15)',
+    'note': ('Trusted: the fork gives the reference the same code and reader '
+             'set and no history; stub producers for pool files. The check '
+             'never decides which reader is "right", only that history does '
+             'not change the answer.'),
+    'technique': 'deterministic simulation: seeded open/registration histories checked against a history-free forked reference process',
+}
+
 NOT_APPLICABLE = {
     'C01': 'pure function of (file, operation sequence): no clock, handle, finaliser, registry or disk state enters any conjunct, so there is no schedule or fault to sample',
     'C02': 'hyperslab selection is a pure function of arrays and selectors; nothing for a simulator to schedule or fault',
@@ -77,7 +118,6 @@ PENDING = {
     'C09': 'planned (DESIGN.md section 5): check not registered yet',
     'C13': 'planned (DESIGN.md section 5, access-schedule over hidden cursors): check not registered yet',
     'C14': 'planned (DESIGN.md section 4, crash-point enumeration): check not registered yet',
-    'C15': 'planned (DESIGN.md section 4, history refinement): check not registered yet',
     'C18': 'planned (DESIGN.md section 5): check not registered yet',
     'C19': 'planned (DESIGN.md section 5): check not registered yet',
 }
